@@ -16,7 +16,7 @@ import math
 import numpy as np
 
 from harness import common, gen
-from harness.props.c02 import lean_ops
+from harness.props.c02 import dist_close, lean_dist, lean_ops, records_key
 from harness.scripted import enumerate_branches
 
 MODULES = ['CirqVerif.Props.C09']
@@ -169,6 +169,7 @@ def run(ctx: common.Run):
     check_conversions(ctx, cirq, n)
     check_moment_channels(ctx, cirq, n)
     check_noise_models(ctx, cirq, max(10, n // 3))
+    check_noisy_runs(ctx, cirq, max(12, n // 3))
     check_thermal(ctx, cirq, max(10, n // 3))
 
 
@@ -386,6 +387,94 @@ def check_noise_models(ctx, cirq, n):
                 ctx.report_witness('noise:constant-structure', 'ConstantQubitNoiseModel does not add the channel on every system qubit after every moment',
                                    {'lines': [{'circuit': repr(circuit), 'channel': repr(ch)}], 'impl_out': [repr(noisy)], 'spec_out': ['moment, then channel on all qubits'],
                                     'theorem_or_correspondence': 'noise_model_defaults'})
+
+
+def check_noisy_runs(ctx, cirq, n):
+    """`run` with a noise model: the joint distribution of the records equals the Born-rule distribution (Lean, C02) of the circuit the
+    noise model produces — also on the terminal-measurement fast path, where operations (noise) that follow a measurement on its qubits
+    must not change what it records, for measurements of one or several qubits in any moment"""
+    rng = ctx.substream('noisy-runs')
+    corpus = []
+    a, b, c = cirq.LineQubit.range(3)
+    corpus.append((cirq.Circuit(cirq.Moment(cirq.measure(a, b, key='a')), cirq.Moment(cirq.measure(c, key='b'))), cirq.X, True))
+    corpus.append((cirq.Circuit(cirq.Moment(cirq.H(a), cirq.X(b)), cirq.Moment(cirq.measure(b, a, key='a')), cirq.Moment(cirq.X(c)), cirq.Moment(cirq.measure(c, key='b'))), cirq.bit_flip(0.25), False))
+    for it in range(n + len(corpus)):
+        if it < len(corpus):
+            circuit, ch, prepend = corpus[it]
+        else:
+            qs = cirq.LineQubit.range(rng.choice([2, 3, 3]))
+            moments, free, nk = [], list(qs), 0
+            terminal = rng.random() < 0.7
+            for _ in range(rng.randint(1, 3)):
+                ops_, used = [], set()
+                for q in qs:
+                    if rng.random() < 0.5:
+                        ops_.append(rng.choice([cirq.H, cirq.X, cirq.X**0.5, cirq.Y**0.25])(q))
+                        used.add(q)
+                if not ops_:
+                    ops_.append(cirq.H(rng.choice(qs)))
+                moments.append(cirq.Moment(ops_))
+            # measurements: groups of 1..3 qubits, in one or several moments; terminal (nothing but noise follows) or not
+            order = list(qs)
+            rng.shuffle(order)
+            while order:
+                k = min(len(order), rng.choice([1, 2, 2, 3]))
+                grp, order = order[:k], order[k:]
+                inv = tuple(rng.random() < 0.3 for _ in grp)
+                m = cirq.measure(*grp, key=f'k{nk}', invert_mask=inv)
+                nk += 1
+                if moments and rng.random() < 0.4 and not any(q in moments[-1].qubits for q in grp) and any(cirq.is_measurement(o) for o in moments[-1]):
+                    moments[-1] = moments[-1].with_operation(m)
+                else:
+                    moments.append(cirq.Moment(m))
+            if not terminal:
+                q = rng.choice(qs)
+                moments.append(cirq.Moment(cirq.X(q).with_classical_controls('k0') if rng.random() < 0.5 else cirq.H(q)))
+                moments.append(cirq.Moment(cirq.measure(q, key='z')))
+            circuit = cirq.Circuit(moments)
+            ch = rng.choice([cirq.X, cirq.bit_flip(0.25), cirq.amplitude_damp(0.3), cirq.Z**0.5, cirq.X**0.5])
+            if not cirq.has_unitary(ch) and len(qs) * len(moments) > 9:
+                ch = cirq.X  # the reference semantics branches on every Kraus operator of every inserted channel: keep that enumerable
+            prepend = rng.random() < 0.4
+        qs = sorted(circuit.all_qubits())
+        model = cirq.ConstantQubitNoiseModel(ch, prepend=prepend)
+        noisy = cirq.Circuit(model.noisy_moments(circuit, qs))
+        dims = [2] * len(qs)
+        init = [0j] * (2 ** len(qs))
+        init[0] = 1
+        out = ctx.driver.ask([{'p': 'C02', 'op': 'dist', 'shape': dims, 'init': [common.c2j(z) for z in init], 'ops': lean_ops(cirq, noisy, qs)}])[0]
+        want = lean_dist(out)
+        terminal = circuit.are_all_measurements_terminal()
+        ctx.case(['noisy-run', repr(circuit), repr(ch), prepend], len(want) >= 2)
+        sims = {'DensityMatrixSimulator': lambda p: cirq.DensityMatrixSimulator(noise=model, seed=p, dtype=np.complex128)}
+        if cirq.has_unitary(ch) or len(list(noisy.all_operations())) <= 12:
+            sims['Simulator'] = lambda p: cirq.Simulator(noise=model, seed=p, dtype=np.complex128)
+        for sname, mk in sims.items():
+            def once(prng, mk=mk):
+                return records_key(mk(prng).run(circuit, repetitions=1).records)
+            try:
+                got = enumerate_branches(once, max_branches=600 if ctx.tier == 'quick' else 4000)
+            except RuntimeError as e:
+                if 'too many branches' not in str(e):
+                    raise
+                ctx.count('check', f'noisy-run:{sname}:branch-cap')
+                continue
+            ctx.count('check', f'noisy-run:{sname}:{"terminal" if terminal else "mid"}')
+            if not dist_close(got, want):
+                # the known finding noise:prefix-split (the program is split, and its moments re-packed, before the noise model sees
+                # it) is recorded for simulate(); this stream is about what follows a measurement: leave re-packed programs to it
+                from cirq.sim.simulator import split_into_matching_protocol_then_general as _split
+                sim0 = mk(1)
+                if sim0._can_be_in_run_prefix(sim0.noise):
+                    pre, suf = _split(circuit, sim0._can_be_in_run_prefix)
+                    if (list(pre) + list(suf)) != list(circuit):
+                        ctx.count('check', f'noisy-run:{sname}:repacked')
+                        continue
+                ctx.report_witness(f'noisy-run:{"terminal" if terminal else "mid"}:{sname}',
+                                   f'{sname}(noise=model).run: the records do not follow the Born rule of the circuit the noise model produces',
+                                   {'lines': [{'circuit': repr(circuit), 'channel': repr(ch), 'prepend': prepend, 'noisy_circuit': repr(noisy)[:1500]}],
+                                    'impl_out': [sorted((repr(k), round(v, 9)) for k, v in got.items())], 'spec_out': [sorted((repr(k), round(v, 9)) for k, v in want.items())],
+                                    'theorem_or_correspondence': 'Spec.Circuit.run (runDist) on noise_model.noisy_moments(circuit)'})
 
 
 def replay(ctx, rep):
